@@ -247,10 +247,12 @@ func (c *Client) runInner() error {
 
 	select {
 	case err := <-rp.errorChan():
+		verifYield("client.closing")
 		rp.close()
 		return err
 
 	case <-c.ctx.Done():
+		verifYield("client.closing")
 		rp.close()
 		return fmt.Errorf("terminated")
 	}
